@@ -82,3 +82,42 @@ package compress
 //@     set gerr = ret1
 //@   call append
 //@     requires tried ==> gerr == nil
+
+// ---- float column: scheme tag (tag << 4 in the first byte) written by the encoder = scheme the decoder dispatches to.
+// 0 raw, 2 snappy, 3 gorilla, 4 same value, 5 run length, 6 MLF (1 = old gorilla, read-only compatibility).
+//@ func (*Float).adaptiveEncoding
+//@   requires c != nil
+//@   opaque adaptiveEncoding$1
+//@   ghost tag int = -1
+//@   call append with out
+//@     set tag = (len(arg1) == 1 ? arg1[0] : tag)
+//@   call (*RLE).SameValueEncoding
+//@     requires [same_value_tag] tag == 64 && arg1 == out
+//@   call (*RLE).Encoding
+//@     requires [run_length_tag] tag == 80 && arg1 == out
+//@ func (*Float).adaptiveEncodingWithMLF
+//@   requires c != nil
+//@   ghost tag int = -1
+//@   call append with out
+//@     set tag = (len(arg1) == 1 ? arg1[0] : tag)
+//@   call (*RLE).SameValueEncoding
+//@     requires [same_value_tag] tag == 64 && arg1 == out
+//@   call (*RLE).Encoding
+//@     requires [run_length_tag] tag == 80 && arg1 == out
+//@   call .Encode
+//@     requires [mlf_tag] tag == 96 && arg0 == out
+//@ func (*Float).compressNull
+//@   call append with out
+//@     requires [raw_tag_then_the_bytes] arg1 != in ==> len(arg1) == 1 && arg1[0] == 0
+//@ func (*Float).AdaptiveDecoding
+//@   requires c != nil && len(in) >= 1
+//@   call GorillaDecoding
+//@     requires [dispatch_gorilla] in[0] / 16 == 3
+//@   call SnappyDecoding
+//@     requires [dispatch_snappy] in[0] / 16 == 2
+//@   call (*RLE).SameValueDecoding
+//@     requires [dispatch_same_value] in[0] / 16 == 4
+//@   call (*RLE).Decoding
+//@     requires [dispatch_run_length] in[0] / 16 == 5
+//@   call .Decode
+//@     requires [dispatch_mlf] in[0] / 16 == 6
